@@ -124,6 +124,12 @@ def extra(tier, rng, workdir):
         for i in range(nvals):
             r = rng.fork(ti * 1000 + i)
             vals.append({"T": name, "v": cl.gen_value(T[name]["r"], r, pool)})
+        if cl.has_list(T[name]["r"]):
+            # one list just over 1024 elements (readers pre-allocate at most that many): complete valid bytes must
+            # still round-trip.  Run on the real code only (tens of kilobytes: too long for a Coq literal).
+            for i in range(1 if quick else 3):
+                vals.append({"T": name, "v": cl.gen_value(T[name]["r"], rng.fork(ti * 1000 + 950 + i), pool, longlist={"left": 1}),
+                             "big": True, "long": True})
         if cl.has_free_varbytes(T[name]["r"]):
             # long byte blocks (around 1 KiB - 3 KiB): most sampled cuts of such an encoding fall inside the block
             for i in range(2 if quick else 6):
@@ -165,6 +171,8 @@ def extra(tier, rng, workdir):
         for n, b in x["opaque"]:
             c, k = oracle.get((n, b), (1, 0))
             used.append((n, len(b), c, k))
+        if x.get("long") or len(x["real"]) > 4000:
+            continue
         enc_rows.append('("%s", %s, %s, %s)' % (x["T"], cl.otable_coq(used), cl.to_coq(x["v"]), cl.zl(x["real"])))
         enc_idx.append(x)
 
@@ -227,6 +235,8 @@ def extra(tier, rng, workdir):
             py_disagree += 1
         # the model is evaluated on every input of the ordinary values; of the long-block values (the cost in Coq is
         # the length of the input) on the exact encoding and a few cuts - the real decoders see all of them above
+        if x.get("long") or len(it["bs"]) > 4000:
+            continue
         if x.get("big"):
             nbig = x["nbig"] = x.get("nbig", 0) + 1
             if it["kind"] not in ("exact",) and nbig > 5:
@@ -240,7 +250,8 @@ def extra(tier, rng, workdir):
     payload_names = [n for n in names if n in codes]
     byT = {}
     for x in vals:
-        byT.setdefault(x["T"], []).append(x)
+        if not x.get("long") and len(x["real"]) <= 4000:
+            byT.setdefault(x["T"], []).append(x)
     streams = []
     for si in range(60 if quick else 600):
         r = rng.fork(900000 + si)
